@@ -228,6 +228,59 @@ def run(chk: Check):
                     nb += 1
                     if nb <= 4:
                         chk.obligation_broken(f"correspondence life-cycle replay (fault {c['fault']})", d[:600])
+    # the phase structure of every session, replayed in Model/Startup.v with the regenerated flags: which phases
+    # (availability scan, SYS, each detected subunit) were attempted and whether a synchronisation reply was handled
+    # during each; the model says whether initialize() returns or raises, what is exposed and whether all is released
+    if not any(b["obligation"].startswith(("translator", "compile", "proof")) for b in chk.broken):
+        from .. import coqio
+        from ..common import run_cases_sharded
+
+        pc = []
+        for c, s in sessions:
+            if s.sim.failure is not None or c["fault"]["kind"] == "open" or not hasattr(s, "i_end") or c.get("other_api"):
+                continue
+            ev = s.sim.events
+            starts = [i for i in range(s.i_start, s.i_end) if ev[i]["k"] == "SetAdd" and ev[i].get("set") == "message" and isinstance(ev[i].get("item"), str)
+                      and ev[i]["item"].endswith("._protocol_message_received") and not ev[i]["item"].startswith("YncaApi.")]
+            bounds = [s.i_start] + starts + [s.i_end]
+            oks = []
+            for a, b in zip(bounds, bounds[1:]):
+                oks.append(any(ev[i]["k"] == "Line" and ev[i]["text"].startswith("@SYS:VERSION=") for i in range(a, b)))
+            exposed = sum(1 for o in s.acc.values() if o is not None)
+            pc.append((c, oks[0], oks[1:], s.exc is None, s.conn_after is None, exposed))
+
+        def mk(part):
+            lines = [coqio.CASES_HEADER, "From Ynca Require Import Model.Startup Proofs.StartupFacts.\nOpen Scope nat_scope.\n"]
+            lines.append("Definition b2n (b : bool) : N := if b then 1%N else 0%N.")
+            lines.append("Definition go (d : bool) (oks : list bool) : list N :=\n  let r := startup gen_scfg d oks in\n"
+                         "  [(match o_out r with Returned => 1%N | Raised => 0%N end); b2n (o_released r); N.of_nat (o_exposed r); END; END2].\n")
+            bl = lambda x: "true" if x else "false"  # noqa: E731
+            lines.append("Eval vm_compute in (" + " ++ ".join(f"go {bl(d)} [" + "; ".join(bl(x) for x in oks) + "]" for _, d, oks, *_ in part) + ")%list.\n")
+            return "\n".join(lines)
+
+        ok, outs, err = run_cases_sharded("c14_startup", mk, pc, shard=300)
+        if not ok:
+            chk.obligation_broken("cases c14_startup", (err or "")[-800:])
+        else:
+            res = [x for o in outs for x in coqio.parse_flat2(o)]
+            nb = good = 0
+            for (c, d, oks, returned, released, exposed), items in zip(pc, res):
+                t = items[0]
+                why = None
+                if bool(t[0]) != returned:
+                    why = f"model says initialize() {'returns' if t[0] else 'raises'}, the implementation {'returned' if returned else 'raised'}"
+                elif bool(t[1]) != released:
+                    why = f"released afterwards: model {bool(t[1])} vs implementation {released}"
+                elif t[2] != exposed:
+                    why = f"objects exposed afterwards: model {t[2]} vs implementation {exposed}"
+                if why is None:
+                    good += 1
+                else:
+                    nb += 1
+                    if nb <= 4:
+                        chk.obligation_broken(f"correspondence start-up phases (fault {c['fault']}, device {c['device']})", f"{why}; phases: scan {'ok' if d else 'failed'}, subunits {['ok' if x else 'failed' for x in oks]}"[:600])
+            chk.cov["startup_phase_sessions_validated"] = good
+            pass
     chk.cov["traces_validated_against_impl"] = validated
     chk.cov["exhaustive"] = True
     chk.cov["rule"] = (
